@@ -166,13 +166,15 @@ ZERO = Form()
 
 
 class State(object):
-    __slots__ = ("vec", "scal", "mv")
+    """vec: tracked vectors; scal: scalars (opaque symbols, loop-control flags concretely); msk: temporaries holding the free components of a vector
+    (`tmp = cth * d[xbdi == 0] + ...`): (form of the full vector, mask key, mask version at the read); mv: current mask version"""
+    __slots__ = ("vec", "scal", "mv", "msk")
 
-    def __init__(self, vec=None, scal=None, mv=None):
-        self.vec, self.scal, self.mv = dict(vec or {}), dict(scal or {}), mv
+    def __init__(self, vec=None, scal=None, mv=None, msk=None):
+        self.vec, self.scal, self.mv, self.msk = dict(vec or {}), dict(scal or {}), mv, dict(msk or {})
 
     def copy(self):
-        return State(self.vec, self.scal, self.mv)
+        return State(self.vec, self.scal, self.mv, self.msk)
 
     def key(self):
         """the discrete part of the state: mask version and the loop-control flags whose value is known"""
@@ -203,6 +205,9 @@ def merge(states):
             out.scal[v] = base.scal[v]
         elif all(v in s.scal for s in states):
             out.scal[v] = sp.Symbol(fresh(v))
+    for v, m in base.msk.items():
+        if all(v in s.msk and s.msk[v][1:] == m[1:] and not s.msk[v][0].add(m[0], -1).t for s in states):
+            out.msk[v] = m
     return out
 
 
@@ -293,6 +298,8 @@ class Interp(object):
         """('v', Form) | ('s', sympy)"""
         if isinstance(e, ast.Name) and e.id in st.vec:
             return "v", st.vec[e.id]
+        if isinstance(e, ast.Name) and e.id in st.msk:
+            return "m", st.msk[e.id]
         if isinstance(e, ast.Call):
             f = e.func
             if isinstance(f, ast.Attribute) and f.attr == "copy" and not e.args:
@@ -323,13 +330,21 @@ class Interp(object):
             return "s", sp.Symbol(fresh("t"))
         if isinstance(e, ast.Subscript):
             if self.is_mask_sub(e) and isinstance(e.value, ast.Name) and e.value.id in st.vec:
-                if masked is not None and self.mask_key(e) == masked:
-                    return "v", st.vec[e.value.id]
-                return "v", Form.atom(fresh("U"))
+                return "m", (st.vec[e.value.id], self.mask_key(e), st.mv)       # the components selected by the mask, carried as the full vector
             return "s", sp.Symbol(fresh("t"))
         if isinstance(e, ast.BinOp):
             kl, l = self.ev(st, e.left, masked)
             kr, r = self.ev(st, e.right, masked)
+            if "m" in (kl, kr):
+                op = e.op
+                if kl == "m" and kr == "m":
+                    if l[1:] == r[1:] and isinstance(op, (ast.Add, ast.Sub)):
+                        return "m", (l[0].add(r[0], 1 if isinstance(op, ast.Add) else -1), l[1], l[2])
+                elif kl == "m" and kr == "s" and isinstance(op, (ast.Mult, ast.Div)) and r not in (sp.true, sp.false):
+                    return "m", (l[0].scale(r if isinstance(op, ast.Mult) else 1 / r), l[1], l[2])
+                elif kl == "s" and kr == "m" and isinstance(op, ast.Mult) and l not in (sp.true, sp.false):
+                    return "m", (r[0].scale(l), r[1], r[2])
+                return "v", Form.atom(fresh("U"))
             if kl == "v" and kr == "v":
                 if isinstance(e.op, ast.Add):
                     return "v", l.add(r)
@@ -356,6 +371,8 @@ class Interp(object):
             k, v = self.ev(st, e.operand, masked)
             if k == "v":
                 return k, v.scale(-1)
+            if k == "m":
+                return k, (v[0].scale(-1), v[1], v[2])
             return k, (-v if v not in (sp.true, sp.false) else sp.Symbol(fresh("t")))
         return "s", self.scalar(st, e)
 
@@ -392,7 +409,13 @@ class Interp(object):
         if kind == "v":
             st.vec[name] = val
             st.scal.pop(name, None)
+            st.msk.pop(name, None)
+        elif kind == "m":
+            st.msk[name] = val
+            st.vec.pop(name, None)
+            st.scal.pop(name, None)
         else:
+            st.msk.pop(name, None)
             # program scalars are opaque: only their identity matters (the same `cth` in the update of gnew and of d), so a computed value is a new symbol
             if not (val in (sp.true, sp.false) or isinstance(val, (sp.Symbol, sp.Number))):
                 val = sp.Symbol(fresh(name))
@@ -432,9 +455,10 @@ class Interp(object):
                         st.vec[t.id] = cur.scale(v if isinstance(s.op, ast.Mult) else 1 / v)
                     else:
                         st.vec[t.id] = Form.atom(fresh("U"))
-                elif k == "v":
+                elif k in ("v", "m"):
                     st.vec[t.id] = Form.atom(fresh("U"))
                     st.scal.pop(t.id, None)
+                    st.msk.pop(t.id, None)
                 else:
                     cur = self.scalar(st, t)
                     if cur in (sp.true, sp.false) or v in (sp.true, sp.false):
@@ -495,6 +519,10 @@ class Interp(object):
             k, v = self.ev(st, value, masked=key)
             if k == "s":
                 v = ZERO if v == 0 else Form.atom("ONE").scale(v)
+            elif k == "m":
+                v = v[0] if (v[1] == key and v[2] == st.mv) else Form.atom(fresh("U"))     # free components read under the same mask (version)
+            else:
+                v = Form.atom(fresh("U"))
             cur = st.vec[root.id]
             E = ("E", st.mv)
             if free:      # v_new = v - E(v) + E(rhs)
